@@ -10,7 +10,12 @@
 //          proto_dkg.go      runTrustedDealer, runGennaro, runCanetti (+ runner variants)
 //          proto_sign.go     runDKLs23 (bbot|softspoken), runLindell22 (vanilla|bip340|mina),
 //                            runBoldyreva, runLindell17DKG / runLindell17Deal / runLindell17Sign
-//          proto_epoch.go    runHJKY (zero sharing), runRedistribute (refresh/recover/redistribute)
+//          proto_epoch.go    runHJKY (zero sharing), runRedistribute (refresh/recover/redistribute),
+//                            runLindell17Deal / runLindell17Sign
+//          proto_types.go    short names of the concrete point/field/scalar types per curve
+//          proto_selftest.go `harness PROTO`: runs everything once, prints wall time and classes
+//          c03.go            genIDs / genSpec (random access structures with arbitrary IDs), runJobs
+//                            (parallel cases, deterministic emission order) — reusable by consumers
 //
 // API (all generic over the group/curve exactly where the library is):
 //
@@ -63,8 +68,18 @@
 //   runLindell22(variant, …) → *SchnorrResult ; runBoldyreva(…) ; runLindell17*(…) ; runHJKY ; runRedistribute
 //   (see the headers of the other proto_*.go files)
 //
-// TIMES (this sandbox, purego, one run, 3 parties unless noted):
-//   see the table at the top of proto_sign.go / proto_dkg.go (measured by `harness PROTO`).
+// TIMES (this sandbox, purego, one run, unloaded machine; `harness PROTO [quick|thorough]` re-measures):
+//   session 3 parties 2 ms | trusted dealer k256 40 ms | Gennaro k256 th2of3 120 ms, BLS G1 cnf/4 1.6 s,
+//   BLS G2 th2of3 6 s | Canetti k256 50 ms, ed25519 hier/5 0.6 s | runners ≈ same
+//   DKLs23 softspoken 2 parties 0.8 s; DKLs23 bbot 2 parties 9 s, 3 parties 23 s (!)
+//   Lindell22 40–90 ms | Boldyreva short 0.5 s, long 1.3 s | HJKY / redistribute: see proto_epoch.go
+//   Lindell17: the library insists on ≥ 3072-bit Paillier keys outside `go test` (tens of seconds per
+//   key): only in `harness PROTO thorough`.  CGGMP21 is not wrapped (keygen ≈ 170 s in the repo's tests).
+//
+// KNOWN LIBRARY BEHAVIOUR met while building this layer (see c03.go): cnf.InducedMSP panics for holder
+// IDs > 64; a CNF holder that is in every maximal unqualified set gets no MSP row (the trusted dealer
+// returns no shard for it, honest Canetti aborts blaming an honest party); hierarchical structures
+// need ascending IDs per level and a threshold ≥ 2.
 
 package main
 
